@@ -5,6 +5,7 @@ import (
 	"math"
 	"runtime/debug"
 	"strings"
+	"time"
 
 	"github.com/trajectoryjp/spatial_id_go/v4/common/enum"
 	"github.com/trajectoryjp/spatial_id_go/v4/common/object"
@@ -132,17 +133,34 @@ type c15Out struct {
 	res      any
 	err      error
 	panicked bool
+	hung     bool
 	pv       any
 	stack    string
 }
 
+// c15Deadline bounds one refused-input call. On the unchanged tree these calls take microseconds to milliseconds; a
+// call that is still running after two minutes has not refused its input (it loops or allocates over an out-of-range
+// count). The worker then stops its batch, because the abandoned call keeps a core (and possibly memory) busy.
+const c15Deadline = 120 * time.Second
+
 func c15Try(f func() (any, error)) (o c15Out) {
-	defer func() {
-		if p := recover(); p != nil {
-			o.panicked, o.pv, o.stack = true, p, string(debug.Stack())
-		}
+	done := make(chan c15Out, 1)
+	go func() {
+		var g c15Out
+		defer func() {
+			if p := recover(); p != nil {
+				g.panicked, g.pv, g.stack = true, p, string(debug.Stack())
+			}
+			done <- g
+		}()
+		g.res, g.err = f()
 	}()
-	o.res, o.err = f()
+	select {
+	case o = <-done:
+	case <-time.After(c15Deadline):
+		o.hung = true
+		core.AbortBatch()
+	}
 	return
 }
 
@@ -877,6 +895,10 @@ judge:
 	}
 	if out.panicked {
 		c.Fail("panic:"+fn, out.stack, "%s(%s) panicked on a %s input: %v", fn, args, what, out.pv)
+		return
+	}
+	if out.hung {
+		c.Fail("no-refusal-hang:"+fn, nil, "%s(%s): the call had not returned after %v on a %s input (it must be refused with an error)", fn, args, c15Deadline, what)
 		return
 	}
 	if emptyIDSignal {
